@@ -120,13 +120,17 @@ CLAIMED = {
         "Lean 4 theorems (certificate layers + planar lemma) + program-equality correspondence",
         "DESIGN.md §5 C08"),
     "C10": (
-        "Kernel-checked theorems for ALL frame sizes, both modes and both routes: C10_exact_aux / C10_exact_prim (the emitted program "
+        "Kernel-checked theorems for ALL frame sizes, both modes and both routes, for EVERY well-formed frame whose entries are "
+        "well-typed Boolean expressions over the caller's variables at any variable offset (C10_general_aux / C10_general_prim; "
+        "fresh frames at any offset, negated entries, dual frames are instances: C10_fresh_ok), and the original fresh-frame forms "
+        "C10_exact_aux / C10_exact_prim (the emitted program "
         "is satisfiable iff every lattice point meets 0,1,2 or 4 active segments (0,2,4 for a cycle; 4 only at interior points) and all "
         "active segments belong to one strand, where segments continue each other at points of degree <= 2 and straight pairs pass "
         "through 4-way points; the returned arrays are exactly 'visited' and '4-way'), incl. the identification of split-graph "
-        "connectivity with strand connectivity; C10_total. Tie: program equality incl. the 3-nodes-per-point auxiliary graph.",
+        "connectivity with strand connectivity; C10_total / C10_general_total. Tie: program equality incl. the 3-nodes-per-point "
+        "auxiliary graph, on frames allocated at offset 0 and at random offsets, with later caller variables and negated entries.",
         "Trusted: Lean kernel + standard axioms; Mathlib Reachable; hand-written model of active_edges_connected_crossable tied by "
-        "program equality; statement is for the frame's own fresh edge variables.",
+        "program equality.",
         "Lean 4 theorems (local rules + reduction to C04 + strand/split-graph identification) + program-equality correspondence",
         "DESIGN.md §5 C10"),
     "C12": (
@@ -250,14 +254,20 @@ CLAIMED = {
         "ValueError -- never IndexError/KeyError/AssertionError/TypeError/RecursionError), C17_total_problem (deserialize_problem: "
         "None, ValueError or a problem of the stated dimensions), C17_total_url (deserialize_problem_as_url with any allowed_puzzles / "
         "allow_failure / return_size on ANY string, and get_puzzle_info_from_url), C17_total_puzzles (every regenerated puzzle codec), "
-        "C17_reencodable_puzzles (for the grid puzzle codecs: whenever a problem is returned, serializing it succeeds and decoding "
-        "that text returns the same problem) and C17_reencodable_partial (Grid/Seq over flat bases). The full re-encodability "
-        "statement for arbitrary terms (statement_reencodable) is stated, not proved. Tie: structured (valid encoding + one mutation) "
+        "re-encodability (whenever a problem is returned, serializing it succeeds and decoding that text returns the same problem) for "
+        "all NINE puzzle codecs incl. the URL layer (C17_reencodable_puzzles, C17_reencodable_rooms_puzzles), for every nested Seq/Grid "
+        "term over closed flat bases (C17_reencodable_nested), for Rooms with all flags and board sizes (C17_reencodable_rooms, via "
+        "C17_rooms_decoded_canonical: whatever Rooms.deserialize returns is a canonical valid partition) and ValuedRooms "
+        "(C17_reencodable_valued_rooms). The full statement for ARBITRARY terms is proved FALSE on the current code "
+        "(C17_reencodable_fails: a Tupl whose element is a value-ambiguous OneOf loses items -- known finding K1, replayed on the real "
+        "code every run); other Tupl/OneOf-above-Seq terms are covered by the property oracle that runs on the real code for every "
+        "generated in-scope case in every run. Tie: structured (valid encoding + one mutation) "
         "and malformed (random URL-alphabet / Unicode strings, dims 0..70) streams through every real codec vs the model, outcome "
         "kinds compared one by one; Unicode digit table regenerated from the running CPython.",
         "Trusted: Lean kernel + standard axioms; model of str.isdigit/int() via the regenerated Unicode digit table; the regex as a "
-        "hand-written matcher (validated against `re`); re-encodability for Rooms-based codecs rests on the correspondence.",
-        "Lean 4 theorems (totality by structural induction, partial re-encodability) + differential correspondence on malformed input",
+        "hand-written matcher (validated against `re`); re-encodability of terms outside the proved classes rests on the per-run oracle.",
+        "Lean 4 theorems (totality by structural induction; re-encodability for the puzzle codecs, nested Seq/Grid, Rooms, ValuedRooms; "
+        "refutation of the unrestricted statement) + differential correspondence on malformed input + per-run property oracle",
         "DESIGN.md §5 C17"),
     "C16": (
         "Kernel-checked theorems for all problems of each module's format and all board sizes (non-square, 1xN, 1x1 included): URL "
